@@ -119,7 +119,7 @@ func (s Subject) IsContainedIn(other Subject) bool {
 			return true
 		}
 
-		if tok != myTok && tok != "*" {
+		if tok != myTok && (tok != "*" || myTok == ">") {
 			return false
 		}
 	}
